@@ -52,11 +52,18 @@ theorem ik_updInst (st : St) (idx : Nat) (f : Inst → Inst) (hf : ∀ i, kindOf
 theorem ik_newInst (st : St) (p m t : String) : instKinds (newInst st p m t).1 = instKinds st ++ [(p, m, t)] := by
   simp [instKinds, newInst]
 
+theorem ik_renameStrict {st st' : St} {i : Nat} {p n : String} (h : renameStrict st i p n = Except.ok st') :
+    instKinds st' = instKinds st := by
+  unfold renameStrict at h
+  split at h
+  · cases h
+  · cases h; exact ik_updInst _ _ _ (fun _ => rfl)
+
 theorem ik_rename {st st' : St} {i : Nat} {p n : String} (h : rename st i p n = Except.ok st') :
     instKinds st' = instKinds st := by
   unfold rename at h
   split at h
-  · cases h
+  · cases h; exact ik_assignDefault _ _ _ _
   · cases h; exact ik_updInst _ _ _ (fun _ => rfl)
 
 theorem ik_addLatchPorts (l : List String) : ∀ st : St, instKinds (addLatchPorts st l) = instKinds st := by
@@ -124,7 +131,7 @@ theorem ik_applyInfo {idx : Nat} {parent : String} (l : List InfoStmt) :
     | cname n =>
       unfold applyInfo at h
       obtain ⟨s1, h1, h⟩ := bind_ok h
-      rw [ih h, ik_rename h1]; exact ik_updInst _ _ _ (fun _ => rfl)
+      rw [ih h, ik_renameStrict h1]; exact ik_updInst _ _ _ (fun _ => rfl)
     | attr k v => unfold applyInfo at h; rw [ih h]; exact ik_updInst _ _ _ (fun _ => rfl)
     | param k v => unfold applyInfo at h; rw [ih h]; exact ik_updInst _ _ _ (fun _ => rfl)
 
